@@ -124,12 +124,12 @@ Definition settings_text (kv : list (string * string)) : string :=
 (* ---------- case records evaluated inside Coq by checks/c14.py (small volume; the bulk goes
    through the extracted model) ---------- *)
 Record tcase := {
-  tc_id : Z; tc_sel : strsel; tc_final : bool; tc_ctx : pctx;
+  tc_id : Z; tc_script : script; tc_final : bool; tc_ctx : pctx;
   tc_windows : list (Z * Z);
   tc_tail : list (option string)          (* observed: one plan object, new context per call *)
 }.
 Definition tcase_model (c : tcase) : list (option string) :=
-  match plan_log (tc_sel c) (tc_final c) with
+  match plan_script (tc_script c) (tc_final c) with
   | None => [None]
   | Some p => run_tail p (tc_ctx c) (tc_windows c) pst0
   end.
@@ -138,7 +138,7 @@ Definition tail_mismatches (cs : list tcase) : list Z := map tc_id (filter tcase
 (* the property's oracle on the OBSERVED statements alone: every statement of the tail run is the
    statement a fresh plan yields for that window (model of the fresh plan) *)
 Definition tcase_spec_violation (c : tcase) : bool :=
-  match plan_log (tc_sel c) (tc_final c) with
+  match plan_script (tc_script c) (tc_final c) with
   | None => false
   | Some p => negb (olist_eqb (fresh_run p (tc_ctx c) (tc_windows c)) (tc_tail c))
   end.
